@@ -75,7 +75,8 @@ fn cmd_f64print(args: &Args) -> String {
 }
 fn cmd_f32print(args: &Args) -> String {
     match bits32(&args[0]) {
-        Some(b) => format!("std={}", hex(format!("{}", f32::from_bits(b)).as_bytes())),
+        // the f32 writer prints the value widened to f64: that is the std text it needs
+        Some(b) => format!("std={}", hex(format!("{}", f64::from(f32::from_bits(b))).as_bytes())),
         None => "bad-input".into(),
     }
 }
@@ -99,14 +100,23 @@ fn cmd_f32w(args: &Args) -> String {
         Some(b) => f32::from_bits(b),
         None => return "bad-input".into(),
     };
-    if format!("{x}").as_bytes() != &args[1][..] {
+    let wide = f64::from(x);
+    if format!("{wide}").as_bytes() != &args[1][..] {
         return "std-mismatch".into();
     }
     let lit = x.to_toml_value();
     let (shown, v) = show_parsed(&lit);
     // the re-parsed f64 narrowed to f32 must be the original
     let rt = matches!(&v, Some(toml_edit::Value::Float(f)) if same_f32(*f.value() as f32, x));
-    format!("lit={} val={} rt={}", hex(lit.as_bytes()), shown, if rt { "ok" } else { "BAD" })
+    // (the hardware conversion quiets signalling NaNs; the writer never looks at a widened NaN)
+    let w = if x.is_nan() { "nan".to_string() } else { format!("{:016x}", wide.to_bits()) };
+    format!(
+        "w={} lit={} val={} rt={}",
+        w,
+        hex(lit.as_bytes()),
+        shown,
+        if rt { "ok" } else { "BAD" }
+    )
 }
 
 fn cmd_lit(args: &Args) -> String {
